@@ -6,7 +6,9 @@ import (
 	"database/sql"
 	"fmt"
 	"os"
+	"os/signal"
 	"path/filepath"
+	"syscall"
 	"runtime/pprof"
 	"strings"
 
@@ -207,6 +209,8 @@ func faultStr(plan []fault) string {
 			k = "c"
 		} else if f.kind == fTorn {
 			k = "p"
+		} else if f.kind == fCancel {
+			k = "x"
 		}
 		ps = append(ps, fmt.Sprintf("%d:%s%d", f.job, k, f.pos))
 	}
@@ -310,9 +314,23 @@ func runCase(c *vh.Ctx, cs *caseT, specs []fileSpec) {
 		if rf >= 0 {
 			op += fmt.Sprintf(" recfail=%d", rf)
 		}
-		out := vh.Guard(func() string { return cs.runCycle(plan, rf) })
+		var age int64
+		zts := false
+		if i < len(cs.ages) {
+			age = cs.ages[i]
+		}
+		if i < len(cs.zeroTs) {
+			zts = cs.zeroTs[i]
+		}
+		if age > 0 {
+			op += fmt.Sprintf(" age=%d", age)
+		}
+		if zts {
+			op += " zerots"
+		}
+		out := vh.Guard(func() string { return cs.runCycle(plan, rf, age, zts) })
 		emit(op, out)
-		if strings.Contains(out, "killed") {
+		if strings.Contains(out, "died@") {
 			c.Tag("cycle:kill")
 			nontriv = true
 		}
@@ -326,7 +344,7 @@ func runCase(c *vh.Ctx, cs *caseT, specs []fileSpec) {
 	var vis []int
 	var verr error
 	for q := 0; q < cs.quiesce; q++ {
-		out := vh.Guard(func() string { return cs.runCycle(nil, -1) })
+		out := vh.Guard(func() string { return cs.runCycle(nil, -1, 0, false) })
 		emit("cycle -", out)
 		var st string
 		st, vis, verr = cs.scanState()
@@ -441,13 +459,25 @@ func runCase(c *vh.Ctx, cs *caseT, specs []fileSpec) {
 		}
 		if dup > 0 || dupRows > 0 {
 			key := "C09:rows-duplicated"
-			if anyDedup {
-				key += ":dedup-metadata"
-			} else {
-				key += ":no-dedup-metadata"
+			switch {
+			case cs.causes["manifest-dropped:job"] && hasCancel(cs):
+				key += ":cancel-during-upload"
+			case cs.causes["manifest-dropped:job"]:
+				key += ":manifest-dropped-by-job"
+			case cs.causes["stale-manifest-dropped"]:
+				key += ":stale-manifest-dropped"
+			case cs.causes["manifest-dropped:recovery"]:
+				key += ":manifest-dropped-by-recovery"
 			}
-			if hasKillAfterUpload(cs) {
-				key += ":adaptive-retry-after-kill"
+			if strings.Count(key, ":") == 1 { // no specific cause seen: classify by metadata / fault plan
+				if anyDedup {
+					key += ":dedup-metadata"
+				} else {
+					key += ":no-dedup-metadata"
+				}
+				if hasKillAfterUpload(cs) {
+					key += ":adaptive-retry-after-kill"
+				}
 			}
 			c.Fail(key, fmt.Sprintf("%d rows are visible more often than before (%s)", max(dup, dupRows), desc), cs.replay.String())
 		}
@@ -471,6 +501,17 @@ func plansStr(ps [][]fault) string {
 	return strings.Join(s, " / ")
 }
 
+func hasCancel(cs *caseT) bool {
+	for _, p := range cs.plans {
+		for _, f := range p {
+			if f.kind == fCancel {
+				return true
+			}
+		}
+	}
+	return false
+}
+
 func hasKillAfterUpload(cs *caseT) bool {
 	for _, p := range cs.plans {
 		for _, f := range p {
@@ -491,6 +532,8 @@ func main() {
 		defer pprof.StopCPUProfile()
 	}
 	zerolog.SetGlobalLevel(zerolog.Disabled) // the child side logs to stderr
+	sigSink := make(chan os.Signal, 64)        // fCancel sends SIGTERM to this process; it must never be fatal
+	signal.Notify(sigSink, syscall.SIGTERM)
 	var err error
 	duck, err = sql.Open("duckdb", "?threads=1")
 	if err != nil {
@@ -525,6 +568,28 @@ func main() {
 				specs := genPartition(vh.NewRand(7), cs, n, 30, 0)
 				runCase(c, cs, specs)
 			}
+		}
+	}
+	// (1a') graceful cancellation at every phase boundary of Job.Run (download, merge, manifest, INSIDE the
+	// upload, every input delete, manifest delete), then restart + recovery + next cycle
+	for _, pos := range []int{100, 101, 0, 1, 2, 3, 5, 6} {
+		cs := &caseT{name: "cancel-grid", kind: "plain", minFiles: 2, maxBatch: 30, quiesce: 2, batchDel: pos%2 == 0}
+		cs.plans = [][]fault{{{job: 0, pos: pos, kind: fCancel}}}
+		runCase(c, cs, genPartition(vh.NewRand(7), cs, 4, 30, 0))
+	}
+	// (1a'') node crash after the upload / partway through the input deletes, then the clock advances before the
+	// next cycle's recovery (0, 6d23h, 7d+1s, 8d, 30d) or the pending manifest carries a zero created_at
+	for _, pos := range []int{2, 4} {
+		for ai, age := range []int64{0, 7*86400 - 3600, 7*86400 + 1, 8 * 86400, 30 * 86400, -1} {
+			cs := &caseT{name: "aged-recovery", kind: "plain", minFiles: 2, maxBatch: 30, quiesce: 1, batchDel: ai%2 == 0}
+			cs.plans = [][]fault{{{job: 0, pos: pos, kind: fCrash}}, {}}
+			cs.recFail = []int{-1, -1}
+			if age >= 0 {
+				cs.ages, cs.zeroTs = []int64{0, age}, []bool{false, false}
+			} else {
+				cs.ages, cs.zeroTs = []int64{0, 0}, []bool{false, true}
+			}
+			runCase(c, cs, genPartition(vh.NewRand(7), cs, 4, 30, 0))
 		}
 	}
 	// (1b) minimal replay of the coarser-key loss: a legacy file (no metadata) whose two rows differ only in
@@ -615,6 +680,12 @@ func main() {
 				if r.Chance(8) {
 					kind, pos = fTorn, 1
 				}
+				if r.Chance(10) {
+					kind = fCancel
+					if r.Chance(30) {
+						pos = vh.Pick(r, []int{100, 101})
+					}
+				}
 				plan = append(plan, fault{job: job, pos: pos, kind: kind})
 				job++
 				if kind != fKill {
@@ -627,6 +698,14 @@ func main() {
 				rf = r.Intn(24)
 			}
 			cs.recFail = append(cs.recFail, rf)
+			var age int64
+			zts := false
+			if k > 0 && r.Chance(30) {
+				age = vh.Pick(r, []int64{3600, 7*86400 - 60, 7*86400 + 1, 8 * 86400, 400 * 86400})
+				zts = r.Chance(25)
+			}
+			cs.ages = append(cs.ages, age)
+			cs.zeroTs = append(cs.zeroTs, zts)
 		}
 		specs := genPartition(r, cs, n, vh.Pick(r, []int{0, 20, 50}), vh.Pick(r, []int{0, 0, 30}))
 		runCase(c, cs, specs)
